@@ -272,6 +272,73 @@ int main()
         }
         std::cout << res << " |" << draws << std::endl;
       }
+      else if (c == "gaacc")
+      {
+        // the other public members of i_ga: size, empty, operator[] const, operator[] (write), conversion to vector,
+        // operator==, inc_age
+        const std::size_t n(std::stoul(next()));
+        const unsigned age(std::stoul(next()));
+        std::vector<int> g;
+        for (std::size_t i(0); i < n; ++i) g.push_back(std::stoi(next()));
+        const std::size_t i(std::stoul(next()));
+        const int v(std::stoi(next()));
+        const i_ga x(make_ga(g, age));
+        std::string out("size " + std::to_string(x.parameters()) + " empty " + (x.empty() ? "1" : "0") + " get ");
+        out += i < n ? std::to_string(x[i]) : "OOB";
+        out += " set ";
+        if (i < n)
+        {
+          i_ga y(x);
+          y[i] = v;
+          const std::vector<int> vec(y);  // operator std::vector<value_type>
+          std::string s("g");
+          for (auto e : vec) s += " " + std::to_string(e);
+          out += s + " age " + std::to_string(y.age()) + " eq " + (x == y ? "1" : "0");
+        }
+        else
+          out += "OOB";
+        i_ga z(x);
+        z.inc_age();
+        out += " incage " + std::to_string(z.age()) + " self " + (x == x ? "1" : "0");
+        std::cout << out << std::endl;
+      }
+      else if (c == "deacc")
+      {
+        const std::size_t n(std::stoul(next()));
+        const unsigned age(std::stoul(next()));
+        std::vector<double> g;
+        for (std::size_t i(0); i < n; ++i) g.push_back(dbl(next()));
+        const std::size_t i(std::stoul(next()));
+        const double v(dbl(next()));
+        const std::size_t m(std::stoul(next()));
+        std::vector<double> w;
+        for (std::size_t k2(0); k2 < m; ++k2) w.push_back(dbl(next()));
+        const i_de x(make_de(g, age));
+        std::string out("size " + std::to_string(x.parameters()) + " get ");
+        out += i < n ? hexd(x[i]) : "OOB";
+        out += " set ";
+        if (i < n)
+        {
+          i_de y(x);
+          y[i] = v;
+          out += show(y) + " eq " + (x == y ? "1" : "0");
+        }
+        else
+          out += "OOB";
+        out += " assign ";
+        if (m == n)
+        {
+          i_de y(x);
+          y = w;
+          out += show(y) + " eq " + (x == y ? "1" : "0");
+        }
+        else
+          out += "SIZE";
+        i_de z(x);
+        z.inc_age();
+        out += " incage " + std::to_string(z.age()) + " self " + (x == x ? "1" : "0");
+        std::cout << out << std::endl;
+      }
       else if (c == "decrossa")
       {
         // i_de::crossover with ALIASED operands: <alias> = four digits, equal digits = the same C++ object in those roles.
